@@ -72,17 +72,27 @@ structure Client where
   log : List (Nat × Bytes) := []  -- ghost: (request number, reply bytes) in delivery order
   deriving Repr
 
+/-- a fragment queued to a redis connection: which fragment, the bytes to write (`Frag.Req`, fixed when the
+    request is decoded) and - ghost - for a fragment queued directly by a client request its (client, request number) -/
+structure QEntry where
+  ref : FragRef
+  bytes : Bytes
+  direct : Option (Nat × Nat) := none
+  deriving Repr, DecidableEq
+
 structure Backend where
   opened : Bool := true
   addr : Bytes
   isSlave : Bool
   initSteps : Nat              -- number of `+OK` the handshake still has to swallow (0: none)
   initializing : Bool
-  outQ : List FragRef := []    -- `outFragQueue`, oldest first
+  outQ : List QEntry := []     -- `outFragQueue`, oldest first
   inQ : List FragRef := []     -- `inFragQueue`, oldest first
   out : Bytes := []            -- every byte written to the redis socket, in order
   leftover : Bytes := []
-  sent : List FragRef := []    -- ghost: fragments written, in order
+  hs : Bytes := []             -- ghost: the handshake written when the connection was opened
+  sent : List QEntry := []     -- ghost: fragments written, in order
+  enq : List QEntry := []      -- ghost: everything ever queued to this connection, in order
   deriving Repr
 
 structure Pool where
@@ -196,8 +206,7 @@ def dial (S : Strs) (cfg : Cfg) (s : State) (p : Nat) : State × Nat :=
     let (hs, steps) := handshake S cfg pool.isSlave
     let id := s.backends.length
     let b : Backend := { addr := pool.addr, isSlave := pool.isSlave, initSteps := steps, initializing := steps > 0,
-                         out := hs,
-                         sent := (if cfg.passwd.isEmpty then [] else [FragRef.probe]) ++ (if pool.isSlave then [FragRef.probe] else []) }
+                         out := hs, hs := hs }
     ({ s with backends := s.backends ++ [b],
               pools := setAt s.pools p (fun q => { q with active := id :: q.active }) }, id)
 
@@ -226,8 +235,8 @@ def poolGet (S : Strs) (cfg : Cfg) (s : State) (p : Nat) : State × Nat :=
         dial S cfg { s with pools := setAt s.pools p (fun q => { q with active := [] }) } p
 
 /-- `EnqueueOutFrag`: queue the fragment and send a write signal -/
-def enqueueOut (s : State) (b : Nat) (f : FragRef) : State :=
-  { s.updBackend b (fun x => { x with outQ := x.outQ ++ [f] }) with tasks := s.tasks ++ [b] }
+def enqueueOut (s : State) (b : Nat) (e : QEntry) : State :=
+  { s.updBackend b (fun x => { x with outQ := x.outQ ++ [e], enq := x.enq ++ [e] }) with tasks := s.tasks ++ [b] }
 
 def fragReq (S : Strs) (s : State) : FragRef → Bytes
   | .frag mi slot => match s.req mi with
@@ -249,9 +258,9 @@ def writeSignal (S : Strs) (cfg : Cfg) (s : State) (b : Nat) : State :=
   | none => s
   | some x =>
     if !x.opened ∨ x.outQ.isEmpty then s else
-    let bytes := (x.outQ.map (fragReq S s)).flatten
-    let s1 := s.updBackend b (fun x => { x with inQ := x.inQ ++ x.outQ, sent := x.sent ++ x.outQ, outQ := [], out := x.out ++ bytes })
-    { s1 with timeouts := s1.timeouts ++ x.outQ.filter (tracked cfg) }
+    let bytes := (x.outQ.map (·.bytes)).flatten
+    let s1 := s.updBackend b (fun x => { x with inQ := x.inQ ++ x.outQ.map (·.ref), sent := x.sent ++ x.outQ, outQ := [], out := x.out ++ bytes })
+    { s1 with timeouts := s1.timeouts ++ (x.outQ.map (·.ref)).filter (tracked cfg) }
 
 def runTasks (S : Strs) (cfg : Cfg) (s : State) : State :=
   let s1 := s.tasks.foldl (writeSignal S cfg) s
@@ -346,7 +355,10 @@ def forward (T : Tables) (S : Strs) (cfg : Cfg) (s : State) (c : Nat) (cm : CMsg
       -- the fragments are kept in visiting order
       let frags := targets.filterMap (fun t => getFrag m t.1)
       match acceptReq s1 c { m with frags := frags } with
-      | (s2, id) => targets.foldl (fun st t => enqueueOut st t.2 (.frag id t.1)) s2
+      | (s2, id) =>
+        let num := ((s1.client c).map (·.decoded)).getD 0
+        targets.foldl (fun st t =>
+          enqueueOut st t.2 { ref := .frag id t.1, bytes := ((getFrag m t.1).map (·.req)).getD [], direct := some (c, num) }) s2
 
 /-- `OnCReact` + the tail of the `cread` iteration for one decoded request.
     Returns the new state and whether the connection must be closed (QUIT). -/
@@ -408,8 +420,8 @@ def onMoved (S : Strs) (cfg : Cfg) (s : State) (mi slot : Nat) (isAsk : Bool) (a
       | none => failWith s S.errUnknownPool
       | some p =>
         let (s1, b) := poolGet S cfg s p
-        let s2 := if isAsk then enqueueOut s1 b .asking else s1
-        enqueueOut s2 b (.frag mi slot)
+        let s2 := if isAsk then enqueueOut s1 b { ref := .asking, bytes := S.asking } else s1
+        enqueueOut s2 b { ref := .frag mi slot, bytes := fragReq S s (.frag mi slot) }
 
 /-- the handshake prelude of `conn.sread`: swallow the `+OK` replies first. `none` = wait for more bytes -/
 def initPrelude (s : State) (b : Nat) (x : Backend) (view : Bytes) : Option (State × Bytes) :=
@@ -507,7 +519,7 @@ def backendClose (S : Strs) (s : State) (b : Nat) : State :=
   | some x =>
     if !x.opened then s
     else
-      let s1 := failFrags S s (x.inQ ++ x.outQ)
+      let s1 := failFrags S s (x.inQ ++ x.outQ.map (·.ref))
       let s2 := x.inQ.foldl dropTimeout s1
       s2.updBackend b (fun x => { x with opened := false, inQ := [], outQ := [], leftover := [] })
 
